@@ -340,6 +340,98 @@ theorem evalS_store (env : Nat → Mask) (addr : Nat → Nat) (p : Prog) : ∀ s
         obtain ⟨g1, g2, g3⟩ := grow st r.2 _ (ih st r.1 r.2 hr).1
         exact ⟨g1, fun _ => ⟨g2, g3⟩, fun k hk => by simp [aliasOf] at hk⟩
 
+/-- the buffer at the result's address holds the mask the evaluator computes -/
+theorem evalS_content (env : Nat → Mask) (addr : Nat → Nat) (p : Prog) : ∀ st a st',
+    evalS env addr p st = .ok (a, st') → aliasOf p = none →
+    ∃ m, eval env p = .ok m ∧ st'.getD a [] = m.toList := by
+  induction p with
+  | leaf k => intro st a st' _ hp; simp [aliasOf] at hp
+  | pos p ih =>
+    intro st a st' h hp
+    simp only [evalS] at h
+    simp only [aliasOf] at hp
+    obtain ⟨m, hm, hc⟩ := ih st a st' h hp
+    exact ⟨m, by simpa [eval] using hm, hc⟩
+  | un p ih =>
+    intro st a st' h _
+    simp only [evalS] at h
+    split at h
+    · cases h
+    · split at h
+      · cases h
+      · rename_i m hm
+        simp only [Except.ok.injEq, Prod.mk.injEq] at h
+        obtain ⟨rfl, rfl⟩ := h
+        exact ⟨m, hm, by simp⟩
+  | binC p ih =>
+    intro st a st' h _
+    simp only [evalS] at h
+    split at h
+    · cases h
+    · split at h
+      · cases h
+      · rename_i m hm
+        simp only [Except.ok.injEq, Prod.mk.injEq] at h
+        obtain ⟨rfl, rfl⟩ := h
+        exact ⟨m, hm, by simp⟩
+  | map op p ih =>
+    intro st a st' h _
+    simp only [evalS] at h
+    split at h
+    · cases h
+    · split at h
+      · cases h
+      · rename_i m hm
+        simp only [Except.ok.injEq, Prod.mk.injEq] at h
+        obtain ⟨rfl, rfl⟩ := h
+        exact ⟨m, hm, by simp⟩
+  | vtk p ih =>
+    intro st a st' h _
+    simp only [evalS] at h
+    split at h
+    · cases h
+    · split at h
+      · cases h
+      · rename_i m hm
+        simp only [Except.ok.injEq, Prod.mk.injEq] at h
+        obtain ⟨rfl, rfl⟩ := h
+        exact ⟨m, hm, by simp⟩
+  | hdf5 p ih =>
+    intro st a st' h _
+    simp only [evalS] at h
+    split at h
+    · cases h
+    · split at h
+      · cases h
+      · rename_i m hm
+        simp only [Except.ok.injEq, Prod.mk.injEq] at h
+        obtain ⟨rfl, rfl⟩ := h
+        exact ⟨m, hm, by simp⟩
+  | setv s p ih =>
+    intro st a st' h _
+    simp only [evalS] at h
+    split at h
+    · cases h
+    · split at h
+      · cases h
+      · rename_i m hm
+        simp only [Except.ok.injEq, Prod.mk.injEq] at h
+        obtain ⟨rfl, rfl⟩ := h
+        exact ⟨m, hm, by simp⟩
+  | binF p q ihp ihq =>
+    intro st a st' h _
+    simp only [evalS] at h
+    split at h
+    · cases h
+    · split at h
+      · cases h
+      · split at h
+        · cases h
+        · rename_i m hm
+          simp only [Except.ok.injEq, Prod.mk.injEq] at h
+          obtain ⟨rfl, rfl⟩ := h
+          exact ⟨m, hm, by simp⟩
+
 /-- writing into one buffer leaves every other buffer as it was -/
 theorem write_other (st : Store) (a k b : Nat) (v : Bool) (h : b ≠ a) :
     (write st a k v).getD b [] = st.getD b [] := by
